@@ -205,7 +205,9 @@ func init() {
 				terms = append(terms, t)
 			}
 		}
-		refs := []*term{mkRef("", "a"), mkRef("", "b"), mkRef("d", "a"), mkRef("e", "a"), mkRef("d", "b"), mkRef("", "MIT"), mkRef("", "GPL-2.0")}
+		refs := []*term{mkRef("", "a"), mkRef("", "b"), mkRef("d", "a"), mkRef("e", "a"), mkRef("d", "b"), mkRef("", "MIT"), mkRef("", "GPL-2.0"),
+			// user-defined names are matched exactly: the same names in another letter case are different terms
+			mkRef("", "A"), mkRef("D", "a"), mkRef("", "acme-eula"), mkRef("", "ACME-EULA"), mkRef("vendor", "acme-eula"), mkRef("Vendor", "acme-eula"), mkRef("", "mit"), mkRef("", "gpl-2.0")}
 		terms = append(terms, refs...)
 		countN("terms", len(terms))
 		// within-family pairs exhaustively, others sampled
@@ -438,6 +440,27 @@ func init() {
 			}
 		}
 		exc := pick(tblExceptions)
+		// bases of listed `X-or-later` / `X-only` ids that are not ids themselves: `X` alone is invalid, `X+` is valid and
+		// must stay so whatever was asked before (and equal `X-or-later`)
+		for _, id := range tblActive {
+			for _, suf := range []string{"-or-later", "-only"} {
+				if b := strings.TrimSuffix(id, suf); b != id && !activeSet[b] && !deprecatedSet[b] {
+					res.Evaluations++
+					count("unlisted_bases")
+					v0 := implVal([]string{b})
+					p1, p2 := implVal([]string{b + "+"}), implVal([]string{b + "-or-later"})
+					if p1.ok != p2.ok && activeSet[b+"-or-later"] {
+						fail(failure{Stream: "oracle", What: "after " + show(b) + " was looked at, " + show(b+"+") + " and " + show(b+"-or-later") + " are no longer equally valid", Case: &kase{Expr: b + "+", ExprHex: hx(b + "+"), Extra: map[string]string{"other_expr": b + "-or-later", "first": b, "first_valid": fmt.Sprint(v0.ok)}}, Impl: fmt.Sprint(p1.ok), Expected: fmt.Sprint(p2.ok)})
+					}
+					if activeSet[b+"-or-later"] {
+						r1, r2 := implSat(b+"+", []string{id}), implSat(b+"-or-later", []string{id})
+						if r1.String() != r2.String() {
+							fail(failure{Stream: "oracle", What: show(b+"+") + " and " + show(b+"-or-later") + " give different results", Case: &kase{Expr: b + "+", ExprHex: hx(b + "+"), Allowed: []string{id}, Extra: map[string]string{"other_expr": b + "-or-later"}}, Impl: r1.String(), Expected: r2.String()})
+						}
+					}
+				}
+			}
+		}
 		for _, id := range ids {
 			isActive := activeSet[id]
 			pairs := [][2]*term{
@@ -569,6 +592,24 @@ func init() {
 				{{e0, l0}, {e0, []string{e1}}},
 				{{"MIT AND (" + e0 + " OR ISC)", []string{"MIT", e0}}, {"MIT AND (" + e1 + " OR ISC)", []string{"mit", e1}}},
 				{{"MIT OR " + e0, []string{"ISC", e0}}, {"MIT OR " + e1, []string{"ISC", e0}}},
+			}
+			if !isExc {
+				// partners of the same version family: the verdict then rests on the range logic ('+', -or-later), not on
+				// textual equality of the two sides
+				fam := sameFamilyIDs(strings.TrimSuffix(id, "-or-later"))
+				for j := 0; j < 3 && len(fam) > 0; j++ {
+					q := pick(fam)
+					if strings.HasSuffix(q, "+") {
+						continue
+					}
+					for _, qq := range []string{q, q + "+"} {
+						if !implValid(qq) {
+							continue
+						}
+						pairs = append(pairs, [2]call{{qq, []string{e0}}, {qq, []string{e1}}}, [2]call{{e0, []string{qq}}, {e1, []string{qq}}},
+							[2]call{{e0 + "+", []string{qq}}, {e1 + "+", []string{qq}}})
+					}
+				}
 			}
 			for _, p := range pairs {
 				r0, r1 := implSat(p[0].e, p[0].a), implSat(p[1].e, p[1].a)
@@ -740,6 +781,43 @@ func init() {
 			correspond("M "+hx(b)+" "+hx(a+"+"), fmt.Sprint(m == 1), "'+' reach: model matchLeaf vs Satisfies", k)
 			if (m == 1) != want {
 				fail(failure{Stream: "oracle", What: what, Case: k, Impl: fmt.Sprint(m == 1), Expected: fmt.Sprint(want)})
+			}
+			// the same question with other entries around the deciding one (an unrelated id that sorts first, one that
+			// sorts last, a sibling of the family): the verdict about `b` must not depend on what else is allowed
+			if rng.Intn(scale(3, 1)) == 0 {
+				// decoys: unrelated ids that do not match `b` (or `a+`) on their own
+				var dec []string
+				for _, d := range []string{"0BSD", "AAL", "Zlib", "MIT", "curl", "ISC"} {
+					if d != a && d != b && implMatch(b, d) == 0 && implMatch(a+"+", d) == 0 {
+						dec = append(dec, d)
+					}
+				}
+				for len(dec) < 4 {
+					dec = append(dec, "LicenseRef-decoy-"+itoa(len(dec)))
+				}
+				for _, l := range [][]string{{dec[0], a + "+"}, {a + "+", dec[1]}, {dec[1], a + "+", dec[2], dec[0]}, {dec[3], dec[1], a + "+"}} {
+					r := implSat(b, l)
+					count("decoy_lists")
+					res.Evaluations++
+					if r.err == nil && r.panicv == nil && r.ok != want {
+						fail(failure{Stream: "oracle", What: what + " (with unrelated entries beside the deciding one)", Case: &kase{Expr: b, ExprHex: hx(b), Allowed: l}, Impl: fmt.Sprint(r.ok), Expected: fmt.Sprint(want)})
+						break
+					}
+				}
+				// ... and on the expression side: `a+` against a list holding `b` and decoys
+				_, va0 := versionOf(a)
+				_, vb0 := versionOf(b)
+				fa0, _ := versionOf(a)
+				fb0, _ := versionOf(b)
+				want3 := fa0 == fb0 && va0.ok && vb0.ok && cmpVersion(va0, vb0) <= 0 || a == b
+				for _, l := range [][]string{{dec[0], b}, {b, dec[1]}, {dec[1], dec[0], b}} {
+					r := implSat(a+"+", l)
+					res.Evaluations++
+					if r.err == nil && r.panicv == nil && r.ok != want3 {
+						fail(failure{Stream: "oracle", What: "'+' on the expression side with unrelated entries in the list: " + what, Case: &kase{Expr: a + "+", ExprHex: hx(a + "+"), Allowed: l}, Impl: fmt.Sprint(r.ok), Expected: fmt.Sprint(want3)})
+						break
+					}
+				}
 			}
 			// '+' on the other side / both sides
 			if m2 := implMatch(b+"+", a); m2 >= 0 {
